@@ -769,6 +769,11 @@ func (e *Env) StartRPC(parent context.Context, ch grpc.ClientConnInterface, spec
 		// the caller's last act, once the RPC is over and nothing of it will be read again: write
 		// into every piece of metadata the library handed to it (single-actor RPCs only)
 		if spec.terminal.Load() && len(spec.ClientRecv) == 0 && len(spec.ClientHdr) == 0 {
+			// what the call-option targets hold now that the RPC is over (every shape, not only Invoke)
+			rec := &OpRec{Actor: "c:" + spec.ID, RPC: spec.ID, Side: "client", K: "opts", Idx: len(spec.Client)}
+			e.Log.call(rec)
+			e.captureOpts(rec, spec)
+			e.Log.ret(rec, nil)
 			scribble(spec.hdrOpt, spec.ID)
 			scribble(spec.trlOpt, spec.ID)
 			scribble(spec.hdrOpt2, spec.ID)
